@@ -101,7 +101,9 @@ fn flavours(op: &DevOp) -> Vec<FaultKind> {
             FaultKind::WriteZero,
             FaultKind::NoSpace,
         ],
-        OpKind::Seek | OpKind::Flush => vec![FaultKind::Error, FaultKind::Transient { kind: (op.no % 6) as u8 }],
+        // EINTR from a seek or a flush is legal too: std retries the enclosing read/write call, so the
+        // page layer must either restart cleanly or refuse (round 10: C16-13, C06-13)
+        OpKind::Seek | OpKind::Flush => vec![FaultKind::Error, FaultKind::Transient { kind: (op.no % 6) as u8 }, FaultKind::Interrupted],
     }
 }
 
@@ -574,10 +576,10 @@ impl Prop for C16 {
     fn meta(&self) -> Meta {
         Meta {
             level: "fault_enumeration",
-            rule: "per run index one small seeded writer program (0-3 items, knob on, <= 40 points per cloud, payloads <= 2.6 KiB; every sixteenth program, read by a reader session, also holds a payload of 64 KiB or more; every eighth writer session has a filler blob sized so that a packet written from inside add_point ends exactly at a page end). Iterators are polled three more times after their first error. Index % 4 == 3: chunking mode - the program and the read-everything history (validate_crc, raw_xml, open, xml, listings, raw + simple iteration of every cloud, every blob) under 4 transfer schedules (one byte at a time, boundary-biased, 2 random) for device, source pipes and sinks must give byte-identical images and identical results as full transfers. Otherwise: single-error mode, exhaustive per program - the fault-free device-operation sequence (device and pipes on one clock) of the writer program (even indices) or of the reader session (odd) is recorded, and for EVERY operation and every flavour applicable to its kind (hard error of kind Other; an error of another kind - TimedOut, WouldBlock, UnexpectedEof, InvalidData, BrokenPipe, NotFound by operation number, UnexpectedEof on every read; short transfer then error, two cut sizes on reads; EINTR; write returning 0; disk full from that write on) the session is re-run with exactly that fault. Writer runs meet every fault three times: with a caller that stops at the failed call and drops everything, with one that gives up the affected item and goes on with the next call up to the top-level finalize, and with one that calls a failed finalize (of a point cloud or the top-level one) a second time. Oracle: every device operation that reported an error lies inside an API call that returned Err (iterators: Some(Err)), except EINTR (may be absorbed: then the result must equal the fault-free one) and operations inside Drop; every operation of a reader session that met no failing device operation gives the fault-free result, also behind the failed one; no panic; whenever top-level finalize returned Ok the image equals the fault-free image and is flushed; for the callers that go on: whenever top-level finalize returned Ok the file opens and everything the successful calls handed in (points, payloads, metadata) reads back. Distinct = (program shape, fault kind, operation number, API call class); non-trivial = the fault fired".into(),
+            rule: "per run index one small seeded writer program (0-3 items, knob on, <= 40 points per cloud, payloads <= 2.6 KiB; every sixteenth program, read by a reader session, also holds a payload of 64 KiB or more; every eighth writer session has a filler blob sized so that a packet written from inside add_point ends exactly at a page end). Iterators are polled three more times after their first error. Index % 4 == 3: chunking mode - the program and the read-everything history (validate_crc, raw_xml, open, xml, listings, raw + simple iteration of every cloud, every blob) under 4 transfer schedules (one byte at a time, boundary-biased, 2 random) for device, source pipes and sinks must give byte-identical images and identical results as full transfers. Otherwise: single-error mode, exhaustive per program - the fault-free device-operation sequence (device and pipes on one clock) of the writer program (even indices) or of the reader session (odd) is recorded, and for EVERY operation and every flavour applicable to its kind (hard error of kind Other; an error of another kind - TimedOut, WouldBlock, UnexpectedEof, InvalidData, BrokenPipe, NotFound by operation number, UnexpectedEof on every read; short transfer then error, two cut sizes on reads; EINTR, on seeks and flushes as well as on transfers; write returning 0; disk full from that write on) the session is re-run with exactly that fault. Writer runs meet every fault three times: with a caller that stops at the failed call and drops everything, with one that gives up the affected item and goes on with the next call up to the top-level finalize, and with one that calls a failed finalize (of a point cloud or the top-level one) a second time. Oracle: every device operation that reported an error lies inside an API call that returned Err (iterators: Some(Err)), except EINTR (may be absorbed: then the result must equal the fault-free one) and operations inside Drop; every operation of a reader session that met no failing device operation gives the fault-free result, also behind the failed one; no panic; whenever top-level finalize returned Ok the image equals the fault-free image and is flushed; for the callers that go on: whenever top-level finalize returned Ok the file opens and everything the successful calls handed in (points, payloads, metadata) reads back. Distinct = (program shape, fault kind, operation number, API call class); non-trivial = the fault fired".into(),
             assumptions: vec![
 "in the reader sessions and the chunking mode nothing follows a failed call; what a writer offers after a failed call is judged only through the top-level finalize (it must not report success for an incomplete file)".into(),
-                "EINTR is injected on read and write transfers only".into(),
+                "EINTR is injected on every device operation kind (read, write, seek, stream_position, flush)".into(),
                 "errors inside Drop are swallowed by design".into(),
             ],
             real: vec!["whole e57 crate (writer and reader paths)".into(), "roxmltree".into(), "std::io::copy / read_exact / write_all".into()],
